@@ -1563,9 +1563,8 @@ class Parameter(_ParameterBase):
                 if ref is not None:
                     self.owner.param._update_ref(name, ref)
                 elif name in refs and not syncing:
-                    del refs[name]
-                    if name in obj._param__private.async_refs:
-                        obj._param__private.async_refs.pop(name).cancel()
+                    # a plain value ends the link: also stop watching its sources
+                    self.owner.param._update_ref(name, None)
             if is_async or val is Undefined:
                 update_ref()
                 return
@@ -2167,7 +2166,11 @@ class Parameters:
             dep_obj = watcher.cls if watcher.inst is None else watcher.inst
             dep_obj.param.unwatch(watcher)
         self_.self._param__private.ref_watchers = []
-        refs = dict(self_.self._param__private.refs, **{name: ref})
+        refs = dict(self_.self._param__private.refs)
+        if ref is None:
+            refs.pop(name, None)
+        else:
+            refs[name] = ref
         deps = {name: resolve_ref(ref, self_[name].nested_refs) for name, ref in refs.items()}
         self_._setup_refs(deps)
         self_.self._param__private.refs = refs
